@@ -42,6 +42,8 @@ def variants(algo, tier):
         out.append(("fixed-0-and-last", {"init": "svd", "fixed_modes": "0,LAST"}, 2 if q else 5, False))
         out.append(("fixed-mode0-normalize", {"init": "random", "fixed_modes": [0], "normalize_factors": True}, 3 if q else 6, False))
         out.append(("rec_error-criterion", {"init": "svd", "cvg_criterion": "rec_error"}, 3 if q else 6, False))
+        out.append(("fixed-negative-index", {"init": "random", "fixed_modes": [-1]}, 3 if q else 5, False))
+        out.append(("fixed-negative-index-2", {"init": "svd", "fixed_modes": [-2]}, 3 if q else 5, False))
         # second tensor-algebra implementation (tl.tenalg backend 'einsum'): a configuration like any other
         out.append(("einsum-normalize", {"init": "random", "normalize_factors": True, "tenalg": "einsum"}, 3 if q else 6, False))
         out.append(("einsum-mask", {"init": "svd", "mask": "MASK", "tenalg": "einsum"}, 3 if q else 5, True))
